@@ -409,43 +409,41 @@ func (c *Ctx) RulerKeyAgreement(prop string) {
 					continue
 				}
 				n++
-				// value: a parameter of a helper, or directly a RulesData.PubKey load
-				check := func(v ssa.Value, where ssa.Instruction, inFn *ssa.Function) {
+				// the value, resolved through the call chain from the scatter worker (helper parameters -> arguments), is the
+				// PubKey of rulesData[i] at the worker's own index
+				isRoot := func(f *ssa.Function) bool { _, ok := scatterLoopIdx(f); return ok }
+				chains := c.Chains(fn, st, isRoot, 5)
+				nchain := 0
+				for _, ch := range chains {
+					W := ch[0].Fn
+					l, isWorker := scatterLoopIdx(W)
+					if !isWorker {
+						c.R.Unknown(rule, Fn(fn)+" via "+Fn(W), c.Pos(st), "rules metadata is built on a call chain that does not start in a scatter worker: the position it belongs to is not identified")
+						nchain++
+						continue
+					}
+					nchain++
+					sub := ch[len(ch)-1].Sub
+					v := sub.Res(st.Val)
 					owner, f, base := an.FieldOf(v)
 					if owner == nil || f != "PubKey" || !namedIs(owner, pkgRuler, "RulesData") {
-						c.R.Fail(rule, Fn(inFn), c.Pos(where), "the metadata's public key (which keys the watermark) is not the PubKey of the rules-data entry: "+an.Term(v), "metadata.PubKey = rulesData[i].PubKey", nil)
-						return
+						c.R.Fail(rule, Fn(fn), c.Pos(st), "the metadata's public key (which keys the watermark) is not the PubKey of the rules-data entry: "+an.Term(v), "metadata.PubKey = rulesData[i].PubKey", nil)
+						continue
 					}
+					base = sub.Res(base)
 					_, idx, ok := elemLoad(base)
 					if !ok {
-						c.R.Fail(rule, Fn(inFn), c.Pos(where), "the metadata's public key is not taken from an element of the request list", "metadata.PubKey = rulesData[i].PubKey", nil)
-						return
+						c.R.Fail(rule, Fn(fn), c.Pos(st), "the metadata's public key is not taken from an element of the request list: "+an.Term(base), "metadata.PubKey = rulesData[i].PubKey", nil)
+						continue
 					}
-					if l, ok := scatterLoopIdx(inFn); !ok || l.Idx != idx {
-						c.R.Fail(rule, Fn(inFn), c.Pos(where), "the metadata's public key is taken from another position than the one being evaluated", "metadata.PubKey = rulesData[i].PubKey at the worker's own index", nil)
-						return
+					if l.Idx != idx {
+						c.R.Fail(rule, Fn(fn), c.Pos(st), "the metadata's public key is taken from another position than the one being evaluated", "metadata.PubKey = rulesData[i].PubKey at the worker's own index", nil)
+						continue
 					}
-					c.R.OK(rule, Fn(inFn), c.Pos(where), "metadata.PubKey = rulesData[i].PubKey at the worker's own index (the lock key and the database key derive from the same bytes)")
+					c.R.OK(rule, Fn(fn)+" via "+Fn(W), c.Pos(st), "metadata.PubKey = rulesData[i].PubKey at the worker's own index (the lock key and the database key derive from the same bytes)")
 				}
-				if p, ok := st.Val.(*ssa.Parameter); ok {
-					pi := -1
-					for i, pp := range fn.Params {
-						if pp == p {
-							pi = i
-						}
-					}
-					nc := 0
-					for _, caller := range c.StaticReach(r.RunRules, 6) {
-						for _, ci := range Calls(caller, func(ci ssa.CallInstruction) bool { return ci.Common().StaticCallee() == fn }) {
-							nc++
-							check(ci.Common().Args[pi], ci, caller)
-						}
-					}
-					if nc == 0 {
-						c.R.Unknown(rule, Fn(fn), c.Pos(st), "metadata builder has no call site below RunRules")
-					}
-				} else {
-					check(st.Val, st, fn)
+				if nchain == 0 {
+					c.R.Unknown(rule, Fn(fn), c.Pos(st), "metadata builder is not reached from a scatter worker below RunRules")
 				}
 			}
 		}
